@@ -717,7 +717,10 @@ def process_template(job):
       rec.hist('binding_refused', '%s: %s' % (label.split(':')[1][:40] if origin == 'typed' else origin, type(hv).__name__)); return rec
     rec.hist('binding_refused', 'accepted: %s' % (label.split(':')[1][:40] if origin == 'typed' else origin))
   else:
-    hv = to_pg(t)                   # a generated template the library refuses to build is a generator bug: fail closed
+    okb, hv = attempt(lambda: to_pg(t))
+    if not okb:                     # every generated template is a legal hyper value: a refusal is an outcome of the implementation, with the case as witness
+      rec.hit('C13/construction-raises/%s/%s' % (type(hv).__name__, feat), 'building the hyper value %s raises %s: %s' % (td, type(hv).__name__, str(hv)[:200]), dict(case0, op='construct'))
+      return rec
   fn = where_fn(w)
   snap0 = snapshot(hv)
   def unchanged(op, extra=None):
